@@ -22,11 +22,18 @@ class ResultReporter:
 
 
 class TestSuiteParseErrorReporter(ResultReporter):
+    def __init__(self,
+                 reporting_environment: process_result_reporter.Environment,
+                 exit_identifier_printer: ProcOutputFile = ProcOutputFile.STDOUT,
+                 ):
+        super().__init__(reporting_environment)
+        self._exit_identifier_printer = exit_identifier_printer
+
     def report(self, ex: SuiteParseError) -> int:
         file_printers = self._reporting_environment.std_file_printers
         from exactly_lib.test_suite import error_reporting
         return error_reporting.report_suite_parse_error(ex,
-                                                        file_printers.out,
+                                                        file_printers.get(self._exit_identifier_printer),
                                                         file_printers.err)
 
 
@@ -44,6 +51,11 @@ class TestCaseResultReporter(ResultReporter):
 
     def _exit_identifier_printer(self) -> ProcOutputFile:
         raise NotImplementedError('abstract method')
+
+    def reporter_of_suite_parse_error(self) -> TestSuiteParseErrorReporter:
+        """The exit identifier is printed on the same file as for an error of the test case."""
+        return TestSuiteParseErrorReporter(self._reporting_environment,
+                                           self._exit_identifier_printer())
 
     def execute_atc_and_skip_assertions(self) -> Optional[StdOutputFiles]:
         return None
